@@ -250,6 +250,13 @@ def MLA.new (specs : List Spec) : MLA := { layers := specs.map AnyL.new, t := 0 
 def currentSpecs (specs : List Spec) (cur : List AnyL) : List Spec :=
   List.zipWith (fun s b => { s with vel := b.vel, par := b.par }) specs cur
 
+/-- `atm.layers = [Layer(…, seed=s) for …]`: newly built layers assigned through the `layers` setter; the atmosphere's own
+`_t` is not touched (the new layers are at time zero whatever `atm.t` reports) -/
+def MLA.setLayers (specs : List Spec) (A : MLA) : MLA := { layers := specs.map AnyL.new, t := A.t }
+
+/-- `MultiLayerAtmosphere(atm.layers)`: a new atmosphere around the same layer objects, evolved or not; its `_t` starts at 0 -/
+def MLA.rewrap (A : MLA) : MLA := { A with t := 0 }
+
 /-! ## 3. `phase_for` -/
 
 /-- one pixel of `np.sum([layer.phase_for(λ) for layer in layers], axis=0)` -/
